@@ -231,7 +231,8 @@ fn ty_example(
                 let value = transformer.resolve(f.id)?;
                 fields.push(value)
             }
-            Ok(quote!(( #(#fields),* )))
+            // trailing commas, so that a tuple with one field is a tuple and not a parenthesized expression
+            Ok(quote!(( #(#fields,)* )))
         }
         scale_info::TypeDef::Primitive(def) => Ok(primitive_example(
             def,
